@@ -424,7 +424,7 @@ def _alarm(signum, frame):
     raise _Stuck()
 
 
-STEP_WALL_S = 120   # one step normally takes milliseconds; the only real-time bound here
+STEP_WALL_S = 300   # one step normally takes milliseconds; the only real-time bound here
 
 
 def _exec_ops(lib, case, ops, V, stats):
@@ -528,7 +528,7 @@ def _exec_threads(lib, case, V, stats):
     sch = case["sched"]
     rng = core.stream(sch["seed"], "sched")
     baton = Baton(rng, sch["p"], core.REPO + os.sep + "ctparse", opcode=sch.get("opcode", False),
-                  max_steps=sch.get("max_steps", 3_000_000))
+                  max_steps=sch.get("max_steps", 1_200_000 if sch.get("opcode") else 3_000_000))
     before = state_digest(lib)
     fns = [mk(i, s) for i, s in enumerate(case["scripts"])]
     ok = baton.run(fns)
